@@ -64,11 +64,23 @@ pub fn cases(args: &[String]) {
         case_begin(index);
         index += 1;
         let r = guarded(std::panic::AssertUnwindSafe(move || match t[0].as_str() {
-            "rt" | "rtc" => {
+            "rt" | "rtc" | "rtr" => {
                 let level: u32 = t[1].parse().unwrap();
                 // rtc LEVEL BYTE LEN SUFFIX: LEN copies of one byte (large, extremely compressible blocks)
+                // rtr LEVEL SEED LEN SUFFIX: LEN pseudo-random bytes (large incompressible blocks)
                 let (d, sfx) = if t[0] == "rtc" {
                     (vec![t[2].parse::<u8>().unwrap(); t[3].parse::<usize>().unwrap()], unhex(&t[4]))
+                } else if t[0] == "rtr" {
+                    let mut x: u64 = t[2].parse::<u64>().unwrap() | 1;
+                    let n: usize = t[3].parse().unwrap();
+                    let mut d = Vec::with_capacity(n);
+                    while d.len() < n {
+                        x ^= x << 13;
+                        x ^= x >> 7;
+                        x ^= x << 17;
+                        d.extend_from_slice(&x.to_le_bytes()[..(n - d.len()).min(8)]);
+                    }
+                    (d, unhex(&t[4]))
                 } else {
                     (unhex(&t[2]), unhex(&t[3]))
                 };
@@ -87,7 +99,10 @@ pub fn cases(args: &[String]) {
                 let mut cs = desert::SerializationContext::new(SizeCalculator::new());
                 cs.write_compressed(&d, Compression::new(level)).unwrap();
                 let ctx_ok = buffered[0] == 0xAA && buffered[1..] == v[..] && direct == v && cs.into_output().size() == v.len();
-                let sinks = v[..] == bm[..] && sc.size() == v.len() && ctx_ok;
+                // the frame does not depend on what this thread compressed before: a fresh thread writes the same bytes
+                let (d2, lv) = (d.clone(), level);
+                let fresh = std::thread::spawn(move || frame(lv, &d2)).join().unwrap();
+                let sinks = v[..] == bm[..] && sc.size() == v.len() && ctx_ok && fresh == v;
                 // the frame records the true lengths
                 let (ulen, a) = parse_vu(&v).unwrap();
                 let (clen, b) = parse_vu(&v[a..]).unwrap();
